@@ -45,6 +45,12 @@ ASSUMPTIONS = [
 
 ALPH = ["A", "C", "G", "T", "AC", "GT", "ACG", "TTA", "CA", "G"]
 
+# Switch for the integrator: pgenlib cannot store a call that is missing in one allele only
+# (GenotypesPLINK.write raises RuntimeError). False = such inputs are outside the domain that holds
+# checks (agree still compares the exception kind); True = holds demands the round trip for them too,
+# the failures then carry "half-missing=True" in their signature (candidate known finding).
+STRICT_PGEN_HALF_MISSING = False
+
 
 # ----------------------------------------------------------------------------
 # building / dumping haptools objects
@@ -412,7 +418,8 @@ class Pgen(Relation):
         else:
             calls = L.res(obs["calls"], lambda c: f"({L.z(c['limit'])}, {L.lst(c['batches'], batch_term)})")
             back = E.rgeno(obs["back"])
-        return f"(mkpc {g} {L.opt(inp['cw'], L.z)} {L.opt(inp['cr'], L.z)} {calls} {back})"
+        return (f"(mkpc {g} {L.opt(inp['cw'], L.z)} {L.opt(inp['cr'], L.z)} {L.b(STRICT_PGEN_HALF_MISSING)} "
+                f"{calls} {back})")
 
     def nontrivial(self, inp, obs):
         return nontrivial_matrix(inp)
@@ -452,7 +459,7 @@ class Pgen(Relation):
         else:
             what = "PGEN read-back differs from what was written"
         return (f"pgen: {what}; missing-call={'missing' in f or 'half-missing' in f} "
-                f"unobserved-lower-allele={'unobserved-lower-allele' in f}")
+                f"unobserved-lower-allele={'unobserved-lower-allele' in f} half-missing={'half-missing' in f}")
 
 
 def pysam_dump(path):
